@@ -14,11 +14,11 @@ func init() {
 		ID:    "C14",
 		Title: "a CRL cache entry is only ever absent or complete",
 		Run:   runC14,
-		Explain: "(a) typestate of the writer (the function of internal/file that calls os.CreateTemp and os.Rename): CreateTemp(directory parameter, constant pattern) -> Write(whole content parameter) -> Close -> Rename(temp.Name(), destination parameter), " +
+		Explain: "(a) typestate of the writer (the function of internal/file that calls os.Rename; CreateTemp, Write and Close in it or in one function it calls, which hands the temporary name back): CreateTemp(directory parameter, constant pattern) -> Write(whole content parameter) -> Close -> Rename(temp.Name(), destination parameter), " +
 			"each step reachable only after the previous one succeeded, every other exit failing; the destination parameter reaches no call other than Rename's second argument (the entry is never created, opened or truncated in place); " +
 			"(b) at the cache's call site the temp directory is the cache root and the destination is Join(root, key(url)): rename within one directory; " +
 			"(c) who-may-write: in verifier/crl the only file-mutating calls are MkdirAll in the constructor and that writer in Set; (d) key = hex(sha256([]byte(url))) unsliced, and the temp pattern contains a non-hex rune before '*', so temp names never collide with keys; " +
-			"(e) the reader touches the file system exactly once per Get (one whole-file read of Join(root, key(url))) and every later step works on those bytes.",
+			"(e) the reader touches the file system exactly once per Get (one whole-file read of Join(root, key(url))) and every later step (in Get or a function it hands the bytes to) works on those bytes.",
 		NotCov:  "the schedules and crash points themselves: 'rename(2) within one directory is atomic and an open descriptor keeps the old inode' is the trusted base (POSIX); no durability (fsync) claim is made.",
 		Trusted: []string{"go/types, go/ssa", "POSIX rename(2) atomicity within a directory", "os.CreateTemp creates a fresh file with O_EXCL", "os.ReadFile reads one inode"},
 	})
@@ -26,9 +26,10 @@ func init() {
 		ID:    "C15",
 		Title: "the CRL cache returns only fresh, byte-faithful bundles for the exact URL",
 		Run:   runC15,
-		Explain: "(a) field pairing: Set stores bundle.BaseCRL.Raw / bundle.DeltaCRL.Raw into the entry fields BaseCRL / DeltaCRL (distinct JSON names) and Get parses field X into bundle.X; " +
+		Explain: "Steps of Get / Set may live in functions of the package they call; each obligation is decided where the step lives and read in the frame of Get / Set (parameters replaced by the arguments of the call). " +
+			"(a) field pairing: Set stores bundle.BaseCRL.Raw / bundle.DeltaCRL.Raw into the entry fields BaseCRL / DeltaCRL (distinct JSON names) and Get parses field X into bundle.X; nothing else writes the entry or the bundle; " +
 			"(b) gates of Get: read error (not-exist -> the miss sentinel, others -> error), decode error, base parse error, delta parse error whenever a delta is stored, base expiry, delta expiry whenever a delta exists — all on every success exit; " +
-			"the expiry helper fails on a zero NextUpdate and returns the miss sentinel exactly when time.Now().After(nextUpdate); " +
+			"the function that consults the clock fails on a zero NextUpdate and returns the miss sentinel exactly when time.Now().After(nextUpdate), and these facts hold for the NextUpdate of the bundle's own lists on every success exit of Get; " +
 			"(c) URL confinement: every file-system path of Get and Set is Join(root, hex(sha256(url))) — the URL reaches the file system only through the hash (no separator or dot segment can appear, distinct URL strings give distinct keys up to SHA-256); " +
 			"(d) Set gates: nil bundle, nil base CRL, marshal error and write error are fail-closed; what is written is the marshalled entry.",
 		NotCov:  "byte equality through x509.ParseRevocationList and encoding/json (std), SHA-256 collision freedom.",
@@ -98,16 +99,20 @@ func runC14(c *Ctx) {
 		return
 	}
 	// ---- (a) writer typestate -------------------------------------------------
+	// The steps may be split between the writer and one function it calls (c14FindUnit): the function that owns the
+	// temporary file up to Close hands its name back and the writer renames it.
 	WF := a.WF
 	ruleW := "typestate of the writer: CreateTemp(dir parameter, constant pattern) -> Write(content) -> Close -> Rename(temp name, destination parameter), each step only after the previous succeeded"
-	if WF == nil || len(findCalls(WF, "os.CreateTemp")) != 1 || len(findCalls(WF, "os.Rename")) != 1 {
+	unit, whyNot := c14FindUnit(w, WF)
+	dirArg, pathArg, contentArg := unit.roles() // which argument of the writer plays which role
+	if unit == nil {
 		site := "-"
 		if WF != nil {
 			site = w.FnPos(WF)
 		}
-		c.Bad("writer/protocol", ruleW, site, "no function of internal/file creates a fresh temporary file with os.CreateTemp and renames it over the destination (entries would be written in place or through a reusable temp name)")
+		c.Bad("writer/protocol", ruleW, site, "no function of internal/file creates a fresh temporary file with os.CreateTemp and renames it over the destination (entries would be written in place or through a reusable temp name): "+whyNot)
 	} else {
-		c14Writer(c, WF, ruleW)
+		c14Writer(c, unit, ruleW)
 	}
 	// ---- (b) call site in Set ----------------------------------------------------
 	var wcall *ssa.Call
@@ -117,7 +122,7 @@ func runC14(c *Ctx) {
 		}
 	}
 	if wcall != nil {
-		ok, why := ownedBytes(w, a.Set, wcall.Call.Args[2], 0)
+		ok, why := ownedBytes(w, a.Set, wcall.Call.Args[contentArg], 0)
 		c.Check(ok, "writer/content-owned", "the bytes handed to the writer belong to this call alone (a fresh encoding, never a view of a pooled or shared buffer that another goroutine may rewrite while they are being written)", w.InstrPos(wcall), why)
 	}
 	recv := "param:" + a.Set.Params[0].Name()
@@ -128,8 +133,8 @@ func runC14(c *Ctx) {
 		c.Bad("set/uses-writer", "Set stores the entry through the atomic writer", w.FnPos(a.Set), "Set does not call the temp-file-and-rename writer")
 	} else {
 		c.OK("set/uses-writer", "Set stores the entry through the atomic writer", w.InstrPos(wcall))
-		c.Check(desc(wcall.Call.Args[0]) == recv+".root", "set/temp-in-cache-root", "the temporary file is created in the cache root (same directory, hence same file system, as the entry)", w.InstrPos(wcall), "temp dir is "+desc(wcall.Call.Args[0]))
-		c.Check(desc(wcall.Call.Args[1]) == wantPath, "set/destination", "the destination is Join(root, key(url)) for the URL being stored", w.InstrPos(wcall), "destination is "+desc(wcall.Call.Args[1]))
+		c.Check(desc(wcall.Call.Args[dirArg]) == recv+".root", "set/temp-in-cache-root", "the temporary file is created in the cache root (same directory, hence same file system, as the entry)", w.InstrPos(wcall), "temp dir is "+desc(wcall.Call.Args[dirArg]))
+		c.Check(desc(wcall.Call.Args[pathArg]) == wantPath, "set/destination", "the destination is Join(root, key(url)) for the URL being stored", w.InstrPos(wcall), "destination is "+desc(wcall.Call.Args[pathArg]))
 	}
 	// ---- (c) who may write ----------------------------------------------------------
 	ruleM := "who-may-write: in package verifier/crl the only file-mutating calls are os.MkdirAll in the constructor and the atomic writer in Set"
@@ -158,9 +163,8 @@ func runC14(c *Ctx) {
 	c.Check(okM && len(muts) >= 1, "who-may-write", ruleM, w.FnPos(a.Set), fmt.Sprintf("file-mutating calls found: %v", muts))
 	// ---- (d) key / temp disjointness ----------------------------------------------------
 	c14Key(c, a)
-	if WF != nil {
-		for _, ci := range findCalls(WF, "os.CreateTemp") {
-			call := ci.(*ssa.Call)
+	if unit != nil {
+		for _, call := range []*ssa.Call{unit.ct} {
 			ok := false
 			pat := desc(call.Call.Args[1])
 			if k, isK := call.Call.Args[1].(*ssa.Const); isK {
@@ -199,14 +203,21 @@ func runC14(c *Ctx) {
 	}
 	c.Check(okR, "reader/single-whole-file-read", "the reader touches the file system exactly once per Get: one os.ReadFile of Join(root, key(url)) (size and content always come from the same inode)", w.FnPos(a.Get), fmt.Sprintf("file-system calls in Get: %v", names))
 	if okR {
+		// The decoder may sit in a function Get calls: then the bytes it decodes are a parameter of that function, and
+		// every call of it on the way from Get passes the content result of that one read at that position.
 		rf := reads[0].(*ssa.Call)
-		okB := false
-		for _, ci := range findCalls(a.Get, "encoding/json.Unmarshal") {
-			if ex, ok := ci.Common().Args[0].(*ssa.Extract); ok && ex.Tuple == rf && ex.Index == 0 {
-				okB = true
+		getUnit := append([]*ssa.Function{a.Get}, calleesInPkg(w, a.Get, "verifier/crl")...)
+		nDec := 0
+		okB := true
+		for _, f := range getUnit {
+			for _, ci := range findCalls(f, "encoding/json.Unmarshal") {
+				nDec++
+				if !c14FromRead(getUnit, f, ci.Common().Args[0], rf, 0) {
+					okB = false
+				}
 			}
 		}
-		c.Check(okB, "reader/decodes-those-bytes", "the entry decoded is exactly the bytes of that read", w.InstrPos(rf), "the decoder gets other bytes")
+		c.Check(okB && nDec > 0, "reader/decodes-those-bytes", "the entry decoded is exactly the bytes of that read", w.InstrPos(rf), "the decoder gets other bytes")
 	}
 	c.MinCount("", 12, "cache atomicity obligations")
 }
@@ -239,39 +250,34 @@ func c14Mutates(w *World, g *ssa.Function, depth int) bool {
 	return false
 }
 
-func c14Writer(c *Ctx, WF *ssa.Function, ruleW string) {
+func c14Writer(c *Ctx, u *c14Unit, ruleW string) {
 	w := c.W
+	WF, H, ct, rn := u.WF, u.H, u.ct, u.rn
 	fi := w.Info(WF)
-	c.SeenFn(WF.String())
-	ct := findCalls(WF, "os.CreateTemp")[0].(*ssa.Call)
-	rn := findCalls(WF, "os.Rename")[0].(*ssa.Call)
-	var dirP, pathP, contentP *ssa.Parameter
-	for _, p := range WF.Params {
-		switch {
-		case desc(ct.Call.Args[0]) == "param:"+p.Name():
-			dirP = p
-		case desc(rn.Call.Args[1]) == "param:"+p.Name():
-			pathP = p
-		case p.Type().String() == "[]byte":
-			contentP = p
-		}
+	hfi := w.Info(H)
+	for _, f := range u.fns() {
+		c.SeenFn(f.String())
+	}
+	dirP := u.toWF(ct.Call.Args[0])
+	var pathP *ssa.Parameter
+	if i := c14ParamIndex(WF, rn.Call.Args[1]); i >= 0 {
+		pathP = WF.Params[i]
 	}
 	_, constPat := ct.Call.Args[1].(*ssa.Const)
-	c.Check(dirP != nil && constPat, "writer/create-temp", "the temporary file is created by os.CreateTemp(directory parameter, constant pattern): a fresh, exclusively created file per write", w.InstrPos(ct), "CreateTemp("+desc(ct.Call.Args[0])+","+desc(ct.Call.Args[1])+")")
-	if pathP == nil || contentP == nil {
+	c.Check(dirP != nil && dirP != pathP && constPat, "writer/create-temp", "the temporary file is created by os.CreateTemp(directory parameter, constant pattern): a fresh, exclusively created file per write", w.InstrPos(ct), "CreateTemp("+desc(ct.Call.Args[0])+","+desc(ct.Call.Args[1])+")")
+	if pathP == nil {
 		c.Bad("writer/protocol", ruleW, w.InstrPos(rn), "Rename's destination is not the destination parameter: "+desc(rn.Call.Args[1]))
 		return
 	}
-	// the handle
+	// the handle: the file CreateTemp returned, also when it is spilled into a cell because a deferred closure reads it
 	handle := desc(ct) + "#0"
 	isHandle := func(v ssa.Value) bool {
 		d := desc(v)
 		if d == handle {
 			return true
 		}
-		// spilled into a cell because a deferred closure captures it
-		if u, ok := v.(*ssa.UnOp); ok {
-			if al, ok := u.X.(*ssa.Alloc); ok {
+		if un, ok := v.(*ssa.UnOp); ok {
+			if al, ok := un.X.(*ssa.Alloc); ok {
 				n := 0
 				okSt := false
 				for _, r := range *al.Referrers() {
@@ -282,13 +288,17 @@ func c14Writer(c *Ctx, WF *ssa.Function, ruleW string) {
 						}
 					}
 				}
-				return n == 1 && okSt
+				return n == 1 && okSt && !allocWrittenByClosure(al)
 			}
 		}
 		return false
 	}
-	var wr, cl, nm *ssa.Call
-	for _, ci := range allCalls(WF) {
+	isNameOfHandle := func(v ssa.Value) bool {
+		call, ok := v.(*ssa.Call)
+		return ok && calleeName(call) == "(*os.File).Name" && isHandle(call.Call.Args[0])
+	}
+	var wrs, cls []*ssa.Call
+	for _, ci := range allCalls(H) {
 		call, ok := ci.(*ssa.Call)
 		if !ok {
 			continue
@@ -296,54 +306,122 @@ func c14Writer(c *Ctx, WF *ssa.Function, ruleW string) {
 		switch calleeName(call) {
 		case "(*os.File).Write":
 			if isHandle(call.Call.Args[0]) {
-				wr = call
+				wrs = append(wrs, call)
 			}
 		case "(*os.File).Close":
 			if isHandle(call.Call.Args[0]) {
-				cl = call
-			}
-		case "(*os.File).Name":
-			if isHandle(call.Call.Args[0]) {
-				nm = call
+				cls = append(cls, call)
 			}
 		}
 	}
-	okProto := wr != nil && cl != nil && nm != nil && rn.Call.Args[0] == ssa.Value(nm) && wr.Call.Args[1] == ssa.Value(contentP)
-	detail := ""
-	if okProto {
-		gr := fi.GuardsOf(rn)
-		gc := fi.GuardsOf(cl)
-		gw := fi.GuardsOf(wr)
-		need := []struct {
-			g    map[string]string
-			l, w string
-		}{
-			{gw, "EQ(" + desc(ct) + "#err,nil)", "Write only after CreateTemp succeeded"},
-			{gc, "EQ(" + desc(wr) + "#err,nil)", "Close only after the whole content was written without error"},
-			{gr, "EQ(" + desc(cl) + ",nil)", "Rename only after Close succeeded"},
-			{gr, "EQ(" + desc(wr) + "#err,nil)", "Rename only after Write succeeded"},
-		}
-		for _, n := range need {
-			if !labelHas(n.g, n.l) {
-				okProto = false
-				detail += n.w + " is not enforced; "
+	// the file renamed is the temporary file: Rename's source is handle.Name() — taken in the writer itself, or handed back
+	// by H on every exit of H that reports success (the value extracted from the very call whose error is tested below)
+	srcOK := false
+	var hExits []*ExitSum
+	if H == WF {
+		srcOK = isNameOfHandle(rn.Call.Args[0])
+	} else if ex, ok := rn.Call.Args[0].(*ssa.Extract); ok && ex.Tuple == ssa.Value(u.hc) {
+		hs := w.Summarize(H, Mode{Kind: mErr})
+		c.Evals += hs.States
+		if hs.Complete && len(hs.Exits) > 0 {
+			hExits = hs.Exits
+			srcOK = true
+			for _, e := range hs.Exits {
+				v := e.Ret.Results[ex.Index]
+				if al, _ := unwrapLoadAlloc(v); al != nil && allocWrittenByClosure(al) {
+					srcOK = false
+				}
+				if !isNameOfHandle(spilledRet(v)) {
+					srcOK = false
+				}
 			}
 		}
+	}
+	var contentP *ssa.Parameter
+	if len(wrs) == 1 {
+		contentP = u.toWF(wrs[0].Call.Args[1])
+	}
+	okProto := len(wrs) == 1 && len(cls) > 0 && srcOK && contentP != nil && isByteSlice(contentP.Type()) && contentP != pathP && contentP != dirP
+	detail := ""
+	if okProto {
+		// Order of the steps, as facts on the paths (GuardsOf = what every path to the call has passed). The temporary file
+		// may also be closed a second time on the failure paths (clean-up); the Close of the protocol is one that is
+		// reached only after the write succeeded and whose success every path to the rename has passed.
+		// When H is not the writer: the rename is reached only where H's error is nil, and every exit of H that can
+		// report a nil error lies behind the success edges of Write and Close — so the same order holds across the call.
+		wr := wrs[0]
+		gw := hfi.GuardsOf(wr)
+		gr := fi.GuardsOf(rn)
+		wrOK := "EQ(" + desc(wr) + "#err,nil)"
+		afterH := func(l string) bool {
+			if H == WF {
+				return labelHas(gr, l)
+			}
+			if !labelHas(gr, "EQ("+descTailErr(u.hc)+",nil)") {
+				return false
+			}
+			for _, e := range hExits {
+				if !labelHas(e.Checked, l) {
+					return false
+				}
+			}
+			return true
+		}
+		var whyCl string
+		okCl := false
+		for _, cl := range cls {
+			gc := hfi.GuardsOf(cl)
+			why := ""
+			if !labelHas(gc, wrOK) {
+				why += "Close only after the whole content was written without error is not enforced; "
+			}
+			if !afterH("EQ(" + desc(cl) + ",nil)") {
+				why += "Rename only after Close succeeded is not enforced; "
+			}
+			if why == "" {
+				okCl = true
+			} else if whyCl == "" {
+				whyCl = why
+			}
+		}
+		if !labelHas(gw, "EQ("+desc(ct)+"#err,nil)") {
+			okProto = false
+			detail += "Write only after CreateTemp succeeded is not enforced; "
+		}
+		if !okCl {
+			okProto = false
+			detail += whyCl
+		}
+		if !afterH(wrOK) {
+			okProto = false
+			detail += "Rename only after Write succeeded is not enforced; "
+		}
 	} else {
-		detail = fmt.Sprintf("write=%v close=%v name=%v; the renamed file is %s; written bytes %s", wr != nil, cl != nil, nm != nil, desc(rn.Call.Args[0]), func() string {
-			if wr != nil {
-				return desc(wr.Call.Args[1])
+		detail = fmt.Sprintf("writes=%d closes=%d; the renamed file is %s (the temporary file's name: %v); written bytes %s", len(wrs), len(cls), desc(rn.Call.Args[0]), srcOK, func() string {
+			if len(wrs) > 0 {
+				return desc(wrs[0].Call.Args[1])
 			}
 			return "-"
 		}())
 	}
 	c.Evals += 4
 	c.Check(okProto, "writer/protocol", ruleW, w.InstrPos(rn), detail)
-	// every success-capable exit goes through the rename
+	// every success-capable exit goes through the rename: as a path fact, or (single-exit writers) as a fact about the
+	// values that can be returned — see c14ErrorOnlyViaRename
 	cut := map[edgeKey]bool{}
 	cutInto(fi, rn.Block(), cut)
 	wit := fi.successWitness(Mode{Kind: mErr}, entryState(), cut)
-	c.Check(wit == nil, "writer/success-only-after-rename", "the writer reports success only after the rename", w.FnPos(WF), "a success exit bypasses the rename", wit...)
+	okExit := wit == nil
+	exitDetail := "a success exit bypasses the rename"
+	if !okExit {
+		var why string
+		if okExit, why = c14ErrorOnlyViaRename(fi, rn); okExit {
+			wit = nil
+		} else {
+			exitDetail += ": " + why
+		}
+	}
+	c.Check(okExit, "writer/success-only-after-rename", "the writer reports success only after the rename", w.FnPos(WF), exitDetail, wit...)
 	// the destination parameter is used only as Rename's second argument
 	okUse := true
 	var uses []string
@@ -364,12 +442,14 @@ func c14Writer(c *Ctx, WF *ssa.Function, ruleW string) {
 		}
 	}
 	c.Check(okUse, "writer/destination-only-renamed", "the destination path reaches no call other than Rename's second argument: the entry is never created, opened, truncated or used to derive the temp name", w.FnPos(WF), fmt.Sprintf("other uses of the destination path: %v", uses))
-	// no second file creation in the writer
+	// no second file creation in the writer (and in the function that owns the temporary file)
 	nCreate := 0
-	for _, ci := range allCalls(WF) {
-		switch calleeName(ci) {
-		case "os.Create", "os.OpenFile", "os.WriteFile", "os.CreateTemp":
-			nCreate++
+	for _, f := range u.fns() {
+		for _, ci := range allCalls(f) {
+			switch calleeName(ci) {
+			case "os.Create", "os.OpenFile", "os.WriteFile", "os.CreateTemp":
+				nCreate++
+			}
 		}
 	}
 	c.Check(nCreate == 1, "writer/single-create", "the writer creates exactly one file (the temporary one)", w.FnPos(WF), fmt.Sprintf("%d file-creating calls", nCreate))
@@ -454,18 +534,37 @@ func runC15(c *Ctx) {
 	c.SeenFn(Set.String())
 	m := Mode{Kind: mErr}
 	gfi := w.Info(Get)
+	// Get and Set may delegate steps to functions of the package (decode + parse, the expiry checks, building the entry).
+	// An obligation is then decided where the step lives, and carried into the frame of Get / Set the way the gate
+	// composition carries labels: the helper's parameters are replaced by the arguments of its (only) call.
+	getUnit := append([]*ssa.Function{Get}, calleesInPkg(w, Get, "verifier/crl")...)
+	setUnit := append([]*ssa.Function{Set}, calleesInPkg(w, Set, "verifier/crl")...)
 	// ---- (a) field pairing ---------------------------------------------------------
-	// entry type: the struct decoded in Get
+	// entry type: the struct decoded on the way of Get
 	var entry *ssa.Alloc
 	var um *ssa.Call
-	for _, ci := range findCalls(Get, "encoding/json.Unmarshal") {
-		um = ci.(*ssa.Call)
+	var Fu *ssa.Function
+	nUm := 0
+	for _, f := range getUnit {
+		for _, ci := range findCalls(f, "encoding/json.Unmarshal") {
+			if call, ok := ci.(*ssa.Call); ok {
+				nUm++
+				um, Fu = call, f
+			}
+		}
+	}
+	if nUm == 1 {
 		entry, _ = unwrap(um.Call.Args[1]).(*ssa.Alloc)
 	}
-	if entry == nil {
-		c.Bad("pairing/entry", "Get decodes the stored entry into the entry struct", w.FnPos(Get), "no json.Unmarshal into a local entry")
+	var frU *c15Frame
+	if entry != nil {
+		frU = c15FrameOf(Get, Fu)
+	}
+	if entry == nil || frU == nil {
+		c.Bad("pairing/entry", "Get decodes the stored entry into the entry struct", w.FnPos(Get), fmt.Sprintf("%d json.Unmarshal calls into a local entry in Get and the functions of the package it calls (exactly one, in Get or a function Get calls once, is understood)", nUm))
 		return
 	}
+	c.SeenFn(Fu.String())
 	est := entry.Type().Underlying().(*types.Pointer).Elem().Underlying().(*types.Struct)
 	tags := map[string]string{}
 	for i := 0; i < est.NumFields(); i++ {
@@ -475,8 +574,11 @@ func runC15(c *Ctx) {
 	c.Check(len(tags) == 2 && tags["BaseCRL"] != "" && tags["DeltaCRL"] != "" && tags["BaseCRL"] != tags["DeltaCRL"], "pairing/json-names", "the entry has two fields BaseCRL and DeltaCRL with distinct, non-empty JSON names", w.InstrPos(entry), fmt.Sprintf("tags: %v", tags))
 	ed := desc(entry)
 	// Get: parse(field X) -> bundle.X. The bundle field may be assigned in place or through a local that is nil or the parsed
-	// list (`var d *RevocationList; if entry.X != nil { d, err = Parse(entry.X) }; ...; &Bundle{X: d}`).
+	// list (`var d *RevocationList; if entry.X != nil { d, err = Parse(entry.X) }; ...; &Bundle{X: d}`). The bundle may be
+	// filled in Get, in the function that decodes, or in a function the decoding function hands the entry to: what is
+	// parsed is compared with the entry in the frame of the decoding function.
 	var bundle *ssa.Alloc
+	var Fb *ssa.Function
 	okPair := true
 	detail := ""
 	bundleVals := map[string][]string{} // field -> how the field's value is written in conditions (in place, or the local)
@@ -502,39 +604,32 @@ func runC15(c *Ctx) {
 		bundleT = r.At(0).Type()
 	}
 	fieldSrcs := map[string][]ssa.Value{}
-	for _, b := range Get.Blocks {
-		for _, in := range b.Instrs {
-			st, ok := in.(*ssa.Store)
-			if !ok {
-				continue
-			}
-			fa, ok := st.Addr.(*ssa.FieldAddr)
-			if !ok {
-				continue
-			}
-			al, ok := fa.X.(*ssa.Alloc)
-			if !ok || bundleT == nil || !types.Identical(al.Type(), bundleT) {
-				continue
-			}
-			if bundle != nil && bundle != al {
-				okPair = false
-				detail = "more than one bundle is filled"
-			}
-			bundle = al
-			f := fieldName(al.Type(), fa.Field)
-			var srcs []ssa.Value
-			nonNilSrcs(st.Val, map[ssa.Value]bool{}, &srcs)
-			fieldSrcs[f] = append(fieldSrcs[f], srcs...)
-			if _, isPhi := st.Val.(*ssa.Phi); isPhi || len(srcs) == 1 {
-				bundleVals[f] = append(bundleVals[f], desc(st.Val))
-			}
+	for _, fs := range c15FieldStores(getUnit, func(al *ssa.Alloc) bool { return bundleT != nil && types.Identical(al.Type(), bundleT) }) {
+		if bundle != nil && bundle != fs.al {
+			okPair = false
+			detail = "more than one bundle is filled"
+		}
+		bundle, Fb = fs.al, fs.fn
+		var srcs []ssa.Value
+		nonNilSrcs(fs.st.Val, map[ssa.Value]bool{}, &srcs)
+		fieldSrcs[fs.field] = append(fieldSrcs[fs.field], srcs...)
+		if _, isPhi := fs.st.Val.(*ssa.Phi); (isPhi || len(srcs) == 1) && fs.fn == Get {
+			bundleVals[fs.field] = append(bundleVals[fs.field], desc(fs.st.Val))
+		}
+	}
+	var frB *c15Frame // the frame of the function that fills the bundle, seen from the function that decodes
+	if Fb != nil {
+		c.SeenFn(Fb.String())
+		if frB = c15FrameOf(Fu, Fb); frB == nil {
+			okPair = false
+			detail = "the bundle is filled in " + fnName(Fb) + ", which the decoding function " + fnName(Fu) + " does not call (once)"
 		}
 	}
 	for f, srcs := range fieldSrcs {
 		for _, v := range srcs {
 			good := false
-			if ex, ok := v.(*ssa.Extract); ok && ex.Index == 0 {
-				if call, ok := ex.Tuple.(*ssa.Call); ok && calleeName(call) == "crypto/x509.ParseRevocationList" && desc(call.Call.Args[0]) == ed+"."+f {
+			if ex, ok := v.(*ssa.Extract); ok && ex.Index == 0 && frB != nil {
+				if call, ok := ex.Tuple.(*ssa.Call); ok && calleeName(call) == "crypto/x509.ParseRevocationList" && frB.in(desc(call.Call.Args[0])) == ed+"."+f {
 					good = true
 				}
 			}
@@ -552,44 +647,87 @@ func runC15(c *Ctx) {
 			}
 		}
 	}
+	// Nothing else writes the two objects: the entry is only decoded into, the bundle only filled by the stores just
+	// examined (a function that is handed a pointer to either could otherwise replace a field after the fact). And when a
+	// helper's frame is involved, its facts name the objects by type and local name: there must be one of each on the way.
+	if bundle != nil {
+		if fs := c15ForeignStores(w, getUnit, bundle.Type(), bundle); len(fs) > 0 {
+			okPair = false
+			detail = "the bundle is also written through another reference: " + fs[0]
+		}
+	}
+	if fs := c15ForeignStores(w, getUnit, entry.Type(), nil); len(fs) > 0 {
+		okPair = false
+		detail = "the decoded entry is modified before it is parsed: " + fs[0]
+	}
+	if Fu != Get || (Fb != nil && Fb != Get) {
+		if n := c15LocalsOfType(getUnit, entry.Type()); n != 1 {
+			okPair = false
+			detail = fmt.Sprintf("%d locals of the entry type on the way of Get", n)
+		}
+		if bundle != nil {
+			if n := c15LocalsOfType(getUnit, bundle.Type()); n != 1 {
+				okPair = false
+				detail = fmt.Sprintf("%d locals of the bundle type on the way of Get", n)
+			}
+		}
+	}
 	c.Check(okPair, "pairing/get", "Get parses entry field X into bundle.X for X in {BaseCRL, DeltaCRL}", w.FnPos(Get), detail)
-	// Set: bundle.X.Raw -> entry field X (directly, or through a local that is nil or bundle.X.Raw)
+	// Set: bundle.X.Raw -> entry field X (directly, or through a local that is nil or bundle.X.Raw). The entry may be built
+	// in a function Set calls: what that function stores is read in Set's frame.
 	okSet := true
 	sdetail := ""
 	var sEntry *ssa.Alloc
-	stored := map[string][]string{}
-	for _, b := range Set.Blocks {
-		for _, in := range b.Instrs {
-			if st, ok := in.(*ssa.Store); ok {
-				if fa, ok := st.Addr.(*ssa.FieldAddr); ok {
-					if al, ok := fa.X.(*ssa.Alloc); ok && types.Identical(al.Type(), entry.Type()) {
-						sEntry = al
-						var srcs []ssa.Value
-						nonNilSrcs(st.Val, map[ssa.Value]bool{}, &srcs)
-						f := fieldName(al.Type(), fa.Field)
-						for _, v := range srcs {
-							stored[f] = append(stored[f], desc(v))
-						}
-					}
-				}
-			}
+	var Fe *ssa.Function
+	var entryStores []*ssa.Store
+	storedVals := map[string][]ssa.Value{}
+	for _, fs := range c15FieldStores(setUnit, func(al *ssa.Alloc) bool { return types.Identical(al.Type(), entry.Type()) }) {
+		if sEntry != nil && sEntry != fs.al {
+			okSet = false
+			sdetail = "more than one entry is filled; "
+		}
+		sEntry, Fe = fs.al, fs.fn
+		entryStores = append(entryStores, fs.st)
+		var srcs []ssa.Value
+		nonNilSrcs(fs.st.Val, map[ssa.Value]bool{}, &srcs)
+		storedVals[fs.field] = append(storedVals[fs.field], srcs...)
+	}
+	var frE *c15Frame
+	if Fe != nil {
+		c.SeenFn(Fe.String())
+		if frE = c15FrameOf(Set, Fe); frE == nil {
+			okSet = false
+			sdetail += "the entry is built in " + fnName(Fe) + ", which Set does not call (once); "
+		}
+	}
+	if sEntry != nil {
+		if fs := c15ForeignStores(w, setUnit, sEntry.Type(), sEntry); len(fs) > 0 {
+			okSet = false
+			sdetail += "the entry is also written through another reference: " + fs[0] + "; "
 		}
 	}
 	bp := "param:" + Set.Params[3].Name()
 	for _, f := range []string{"BaseCRL", "DeltaCRL"} {
-		okF := len(stored[f]) > 0
-		for _, d := range stored[f] {
+		okF := len(storedVals[f]) > 0 && frE != nil
+		var got []string
+		for _, v := range storedVals[f] {
+			d := desc(v)
+			if frE != nil {
+				d = frE.in(d)
+			}
+			got = append(got, d)
 			if d != bp+"."+f+".Raw" {
 				okF = false
 			}
 		}
 		if !okF {
 			okSet = false
-			sdetail += fmt.Sprintf("entry.%s = %v; ", f, stored[f])
+			sdetail += fmt.Sprintf("entry.%s = %v; ", f, got)
 		}
 	}
 	c.Check(okSet, "pairing/set", "Set stores bundle.X.Raw into entry field X for X in {BaseCRL, DeltaCRL}", w.FnPos(Set), sdetail)
 	// ---- (b) gates of Get ---------------------------------------------------------------
+	// Facts are compared as whole labels: a disjunction that merely contains the wanted fact is weaker and does not count.
 	s := w.Summarize(Get, m)
 	c.Evals += s.States
 	var rf *ssa.Call
@@ -602,48 +740,66 @@ func runC15(c *Ctx) {
 	}
 	var needs []Need
 	if rf != nil {
-		needs = append(needs, Need{Name: "read-error", What: "os.ReadFile err == nil", Subs: []string{"EQ(" + desc(rf) + "#err,nil)"}})
+		needs = append(needs, exactNeed("read-error", "os.ReadFile err == nil", "EQ("+desc(rf)+"#err,nil)"))
 	}
 	needs = append(needs,
-		Need{Name: "decode-error", What: "json.Unmarshal err == nil", Subs: []string{"EQ(" + desc(um) + ",nil)"}},
-		Need{Name: "base-parse-error", What: "ParseRevocationList(entry.BaseCRL) err == nil", Subs: []string{"EQ(call:crypto/x509.ParseRevocationList(" + ed + ".BaseCRL)#err,nil)"}},
+		exactNeed("decode-error", "json.Unmarshal err == nil", frU.in("EQ("+desc(um)+",nil)")),
+		exactNeed("base-parse-error", "ParseRevocationList(entry.BaseCRL) err == nil", "EQ(call:crypto/x509.ParseRevocationList("+ed+".BaseCRL)#err,nil)"),
 	)
 	c.requireOnExits("get", Get, s.Exits, needs)
-	// the expiry helper
-	var EX *ssa.Function
-	for _, ci := range allCalls(Get) {
-		if call, ok := ci.(*ssa.Call); ok {
-			if g := staticCallee(call); g != nil && w.IsProductFn(g) && isErrorType(call.Type()) {
-				for _, a := range call.Call.Args {
-					if strings.HasSuffix(desc(a), ".NextUpdate") {
-						EX = g
-					}
-				}
-			}
+	// Expiry. The clock is consulted by a function on the way of Get (role: it calls time.Now); what Get owes is stated on
+	// the NextUpdate values themselves — every success exit carries "NextUpdate is not zero" and "now is not after
+	// NextUpdate" for the bundle's base CRL — whatever the helper takes as its parameter (the time, the list, the bundle)
+	// and however many calls lie in between: the helper's facts arrive in Get's frame with its parameters substituted.
+	var EXs []*ssa.Function
+	for _, f := range getUnit[1:] {
+		if f.Parent() == nil && len(findCalls(f, "time.Now")) > 0 {
+			EXs = append(EXs, f)
 		}
 	}
-	if EX == nil {
+	notZero := func(v string) string { return "F(call:(time.Time).IsZero(" + v + ".NextUpdate))" }
+	fresh := func(v string) []string {
+		return []string{"F(call:(time.Time).After(call:time.Now()," + v + ".NextUpdate))", "F(call:(time.Time).Before(" + v + ".NextUpdate,call:time.Now()))"}
+	}
+	if len(EXs) == 0 {
 		c.Bad("get/base-expiry", "Get checks the expiry of the base CRL", w.FnPos(Get), "no expiry check on a NextUpdate")
 	} else {
-		exn := "call:" + fnName(EX) + "("
-		var baseAlt [][]string
-		for _, v := range append([]string{bd + ".BaseCRL"}, bundleVals["BaseCRL"]...) {
-			baseAlt = append(baseAlt, []string{"EQ(" + exn, v + ".NextUpdate)#err,nil)"})
+		rule := "must-check: every success-capable exit of " + fnName(Get) + " lies behind: NextUpdate of the bundle's base CRL is not zero and time.Now() is not after it"
+		okBase := len(s.Exits) > 0
+		bdetail := "no success-capable exit"
+		site := w.FnPos(Get)
+		for _, ex := range s.Exits {
+			c.Evals++
+			okEx := false
+			for _, v := range append([]string{bd + ".BaseCRL"}, bundleVals["BaseCRL"]...) {
+				fr := fresh(v)
+				if labelHas(ex.Checked, notZero(v)) && (labelHas(ex.Checked, fr[0]) || labelHas(ex.Checked, fr[1])) {
+					okEx = true
+					site = ex.Checked[notZero(v)]
+				}
+			}
+			if !okEx {
+				okBase = false
+				bdetail = fmt.Sprintf("success-capable exit at %s is reachable without that check; facts that do hold on every path to it: %s", w.InstrPos(ex.Ret), summarizeLabels(ex.Checked, 12))
+				site = w.InstrPos(ex.Ret)
+				break
+			}
 		}
-		c.requireOnExits("get", Get, s.Exits, []Need{
-			{Name: "base-expiry", What: "expiry check of bundle.BaseCRL.NextUpdate passes", Alt: baseAlt},
-		})
+		c.Check(okBase, "get/base-expiry", rule, site, bdetail)
 		// no delta: the bundle's field (or the local it is built from) is nil, or the entry stores none (pairing/get)
-		preds := []func(string) bool{pre("EQ(" + ed + ".DeltaCRL,nil)")}
+		dl := []string{"EQ(" + ed + ".DeltaCRL,nil)"}
 		for _, v := range append([]string{bd + ".DeltaCRL"}, bundleVals["DeltaCRL"]...) {
-			preds = append(preds, pre("EQ("+v+",nil)"), pre("EQ("+exn, v+".NextUpdate)#err,nil)"))
+			dl = append(dl, "EQ("+v+",nil)")
+			dl = append(dl, fresh(v)...)
 		}
-		ok, n, wit := exitsBlocked(gfi, m, matchOf(preds...), nil)
+		ok, n, wit := c15Blocked(w, Get, m, oneOfLabels(dl), 0)
 		c.slot(ok && n >= 2, n, "get/delta-expiry", "whenever the bundle has a delta CRL its expiry check passes (independently of the base)", w.FnPos(Get), "a bundle whose delta CRL is expired is returned", wit...)
-		c15Expiry(c, EX)
+		for _, EX := range EXs {
+			c15Expiry(c, EX)
+		}
 	}
 	{
-		ok, n, wit := exitsBlocked(gfi, m, matchOf(pre("EQ("+ed+".DeltaCRL,nil)"), pre("EQ(call:crypto/x509.ParseRevocationList("+ed+".DeltaCRL)#err,nil)")), nil)
+		ok, n, wit := c15Blocked(w, Get, m, oneOfLabels([]string{"EQ(" + ed + ".DeltaCRL,nil)", "EQ(call:crypto/x509.ParseRevocationList(" + ed + ".DeltaCRL)#err,nil)"}), 0)
 		c.slot(ok && n >= 2, n, "get/delta-parse-error", "whenever a delta CRL is stored it must parse", w.FnPos(Get), "an entry with an unparsable delta CRL is returned", wit...)
 	}
 	// not-exist -> miss sentinel
@@ -663,15 +819,18 @@ func runC15(c *Ctx) {
 		}
 		c.Check(okMiss, "get/missing-is-miss", "a URL never stored (file does not exist) yields the cache-miss sentinel, other read errors an error", w.FnPos(Get), "no miss for a non-existent entry")
 	}
-	// the bundle returned is the one filled
+	// the bundle returned is the one filled: the object itself, or the result of the function that fills it, which hands
+	// back that object on every exit that reports success
 	okRet := len(s.Exits) > 0 && bundle != nil
 	for _, ex := range s.Exits {
-		if ex.Ret.Results[0] != ssa.Value(bundle) {
+		if !c15ResolvesTo(w, ex.Ret.Results[0], bundle, 0) {
 			okRet = false
 		}
 	}
 	c.Check(okRet, "get/returns-parsed-bundle", "Get returns the bundle parsed from the entry", w.FnPos(Get), "another value is returned")
 	// ---- (c) confinement ------------------------------------------------------------------
+	wfUnit, _ := c14FindUnit(w, a.WF)
+	_, pathArg, contentArg := wfUnit.roles() // which argument of the writer is the destination, which the content
 	for _, fn := range []*ssa.Function{Get, Set} {
 		recv := "param:" + fn.Params[0].Name()
 		urlP := "param:" + fn.Params[2].Name()
@@ -688,7 +847,7 @@ func runC15(c *Ctx) {
 			}
 			if g := staticCallee(ci); g != nil && a.WF != nil && g == a.WF {
 				isFS = true
-				pathArgs = append(pathArgs, ci.Common().Args[1])
+				pathArgs = append(pathArgs, ci.Common().Args[pathArg])
 			}
 			if !isFS {
 				continue
@@ -721,59 +880,101 @@ func runC15(c *Ctx) {
 		}
 	}
 	setNeeds := []Need{
-		{Name: "nil-bundle", What: "bundle != nil", Subs: []string{"NE(" + bp + ",nil)"}},
-		{Name: "nil-base", What: "bundle.BaseCRL != nil", Subs: []string{"NE(" + bp + ".BaseCRL,nil)"}},
+		exactNeed("nil-bundle", "bundle != nil", "NE("+bp+",nil)"),
+		exactNeed("nil-base", "bundle.BaseCRL != nil", "NE("+bp+".BaseCRL,nil)"),
 	}
 	if mcall != nil {
-		setNeeds = append(setNeeds, Need{Name: "marshal-error", What: "json.Marshal err == nil", Subs: []string{"EQ(" + desc(mcall) + "#err,nil)"}})
+		setNeeds = append(setNeeds, exactNeed("marshal-error", "json.Marshal err == nil", "EQ("+desc(mcall)+"#err,nil)"))
 	}
 	if wcall != nil {
-		setNeeds = append(setNeeds, Need{Name: "write-error", What: "the writer's err == nil", Subs: []string{"EQ(" + desc(wcall) + ",nil)"}})
+		setNeeds = append(setNeeds, exactNeed("write-error", "the writer's err == nil", "EQ("+desc(wcall)+",nil)"))
 	}
 	c.requireOnExits("set", Set, ss.Exits, setNeeds)
+	// What is marshalled is the entry as it stands after all its fields were stored: the local itself (read after the
+	// stores), or the result of the function that builds it, every return of which reads the local after the stores.
 	okW := false
-	if wcall != nil && mcall != nil && sEntry != nil {
-		if ex, ok := wcall.Call.Args[2].(*ssa.Extract); ok && ex.Tuple == mcall && ex.Index == 0 {
-			if al, _ := unwrapLoadAlloc(unwrap(mcall.Call.Args[0])); al == sEntry {
+	if wcall != nil && mcall != nil && sEntry != nil && frE != nil {
+		if ex, ok := wcall.Call.Args[contentArg].(*ssa.Extract); ok && ex.Tuple == mcall && ex.Index == 0 {
+			efi := w.Info(Fe)
+			// v is the entry, read at the load — or, when its address is passed on, at the instruction that consumes it
+			readsEntry := func(v ssa.Value, consumer ssa.Instruction) bool {
+				al, _ := unwrapLoadAlloc(v)
+				if al != sEntry {
+					return false
+				}
+				if ld, isLoad := v.(*ssa.UnOp); isLoad {
+					consumer = ld
+				}
+				return c15LoadSeesStores(efi, consumer, entryStores)
+			}
+			arg := unwrap(mcall.Call.Args[0])
+			if Fe == Set {
+				okW = readsEntry(arg, mcall)
+			} else if arg == ssa.Value(frE.call) {
 				okW = true
+				nRet := 0
+				for _, b := range Fe.Blocks {
+					if r, isRet := blockTerm(b).(*ssa.Return); isRet && len(r.Results) > 0 {
+						nRet++
+						if !readsEntry(r.Results[0], r) {
+							okW = false
+						}
+					}
+				}
+				okW = okW && nRet > 0
 			}
 		}
 	}
 	c.Check(okW, "set/writes-marshalled-entry", "what is written is json.Marshal(entry) of the entry filled from the bundle", w.FnPos(Set), "other bytes are written")
-	// delta stored only when present (nil deref guard) — and always when present
-	if sEntry != nil {
-		sfi := w.Info(Set)
-		for _, b := range Set.Blocks {
-			for _, in := range b.Instrs {
-				if st, ok := in.(*ssa.Store); ok {
-					if fa, ok := st.Addr.(*ssa.FieldAddr); ok && fa.X == ssa.Value(sEntry) && fieldName(sEntry.Type(), fa.Field) == "DeltaCRL" {
-						cut := sfi.edgesMatching(anyOf("EQ(" + bp + ".DeltaCRL,nil)"))
-						cutInto(sfi, b, cut)
-						wit := sfi.successWitness(m, entryState(), cut)
-						c.Check(wit == nil, "set/delta-stored-when-present", "whenever the bundle has a delta CRL it is stored", w.InstrPos(st), "a delta CRL can be dropped", wit...)
-					}
-				}
+	// delta stored only when present (nil deref guard) — and always when present. Decided in the function that fills the
+	// entry (every return of it, when it has no error result): no exit without the store, except where the bundle's delta is nil.
+	if sEntry != nil && frE != nil {
+		efi := w.Info(Fe)
+		noDelta := "EQ(" + bp + ".DeltaCRL,nil)"
+		for _, st := range entryStores {
+			if fa := st.Addr.(*ssa.FieldAddr); fieldName(sEntry.Type(), fa.Field) == "DeltaCRL" {
+				cut := efi.edgesMatching(func(l string, _ *ssa.If, _ bool) bool { return frE.in(l) == noDelta })
+				cutInto(efi, st.Block(), cut)
+				wit := efi.successWitness(m, entryState(), cut)
+				c.Check(wit == nil, "set/delta-stored-when-present", "whenever the bundle has a delta CRL it is stored", w.InstrPos(st), "a delta CRL can be dropped", wit...)
 			}
 		}
 	}
 	c.MinCount("", 15, "cache freshness obligations")
 }
 
+// c15Expiry: the function that consults the clock. The time it judges is the operand it compares with time.Now().
 func c15Expiry(c *Ctx, EX *ssa.Function) {
 	w := c.W
 	c.SeenFn(EX.String())
 	fi := w.Info(EX)
 	var tp string
-	for _, p := range EX.Params {
-		if p.Type().String() == "time.Time" {
-			tp = paramValueDesc(p)
+	for _, ci := range allCalls(EX) {
+		args := ci.Common().Args
+		switch calleeName(ci) {
+		case "(time.Time).After":
+			if desc(args[0]) == "call:time.Now()" {
+				tp = desc(args[1])
+			}
+		case "(time.Time).Before":
+			if desc(args[1]) == "call:time.Now()" {
+				tp = desc(args[0])
+			}
+		}
+	}
+	if tp == "" {
+		for _, p := range EX.Params {
+			if p.Type().String() == "time.Time" {
+				tp = paramValueDesc(p)
+			}
 		}
 	}
 	s := w.Summarize(EX, Mode{Kind: mErr})
 	c.Evals += s.States
+	expired := []string{"T(call:(time.Time).After(call:time.Now()," + tp + "))", "T(call:(time.Time).Before(" + tp + ",call:time.Now()))"}
 	c.requireOnExits("expiry", EX, s.Exits, []Need{
-		{Name: "zero-next-update", What: "NextUpdate is not the zero time", Subs: []string{"F(call:(time.Time).IsZero(" + tp + "))"}},
-		{Name: "not-expired", What: "not time.Now().After(nextUpdate)", Alt: [][]string{{"F(call:(time.Time).After(call:time.Now()," + tp + "))"}, {"F(call:(time.Time).Before(" + tp + ",call:time.Now()))"}}},
+		exactNeed("zero-next-update", "NextUpdate is not the zero time", "F(call:(time.Time).IsZero("+tp+"))"),
+		exactNeed("not-expired", "not time.Now().After(nextUpdate)", "F"+expired[0][1:], "F"+expired[1][1:]),
 	})
 	// expired -> the miss sentinel
 	okMiss := false
@@ -784,7 +985,7 @@ func c15Expiry(c *Ctx, EX *ssa.Function) {
 		}
 		if desc(r.Results[0]) == "global:core/revocation/crl.ErrCacheMiss" {
 			g, _ := fi.mustPassBetween([]int{0}, map[int]bool{b.Index: true})
-			if labelHas(g, "T(call:(time.Time).After(call:time.Now(),"+tp+"))") || labelHas(g, "T(call:(time.Time).Before("+tp+",call:time.Now()))") {
+			if labelHas(g, expired[0]) || labelHas(g, expired[1]) {
 				okMiss = true
 			}
 		}
